@@ -229,5 +229,12 @@ def run(ctx):
     for rid_, inst in borrow(ctx, 'C14', lambda r_, k_: k_ in ('rr:rdlen', 'rr:rdata', 'answer:returned-whole')) + borrow(ctx, 'C16', lambda r_, k_: k_ in ('bytes-then-pad', 'pad-count', 'length-word')):
         rep.check(r3, inst['ok'], '%s:%s' % (rid_, inst['key']), inst['detail'], inst['loc'])
     dispatch_sound(ctx, 'C19', 'which responder answers is decided')
+    # R2 admits one port-dependent decision, the SYN-cookie test.  It is port-independent only as long as it is exact for
+    # EVERY cookie value (ack == cookie + 1 modulo 2^32): a test that is off for some cookie values (saturating instead of
+    # wrapping arithmetic, a table look-up under the wrong key) answers the same payload on some port pairs and not on
+    # others.  C07-R1 decides exactly that on tcp::repl; its data-arm instances are obligations here too.
+    from rules.common import borrowed_rule
+    borrowed_rule(ctx, 'C19', 'RC', 'the one port-dependent decision (SYN-cookie test of the data arm) is exact for every cookie value, so which port pair a flow uses never decides whether its payload is answered (C07-R1 data:*, same facts)',
+                  'C07', lambda r_, k_: r_.startswith('C07-R1') and k_.startswith('data:'), floor=3)
 
 
